@@ -14,7 +14,7 @@ import (
 )
 
 func init() {
-	register(&Rule{ID: "CHARSET", Props: []string{"C13", "C09", "C05"}, Min: 5,
+	register(&Rule{ID: "CHARSET", Props: []string{"C13", "C14", "C09", "C05"}, Min: 5,
 		Doc: "S: constant character-set tables are compared as sets with ES5: the characters encodeURI / encodeURIComponent leave unescaped (regexp constant joined with what url.QueryEscape leaves alone) = §15.1.3.3/4; the escapes decodeURI preserves (guard regexp, either hex case) = reservedSet+'#' §15.1.3.1; escape()'s unescaped set = B.2.1; the trim set = WhiteSpace+LineTerminator §7.2-7.3",
 		Run: ruleCharset})
 	register(&Rule{ID: "LIB-must", Props: []string{"C02", "C10"}, Min: 5,
